@@ -99,6 +99,7 @@ type run struct {
 	sched     *scheduler
 	sites     int
 	decisions int
+	evictSeen int
 
 	// statistics for the non-triviality rule
 	accepted, rejected, adversarial, headDrops, restarts int
@@ -155,7 +156,7 @@ func (engine) Run(t *testing.T, tape *core.Tape, opt core.Options) (res *core.Ru
 				msg := fmt.Sprint(p)
 				if strings.Contains(msg, "blocked goroutines remain") {
 					if !res.Failed() && res.Infra == "" {
-						res.Violate(prop, "goroutine-leak", "pool goroutines remain blocked after Stop", msg)
+						res.Infra = "goroutines remain blocked in the bubble after Stop: " + msg
 					}
 					return
 				}
@@ -195,6 +196,7 @@ func (r *run) body() {
 	r.res.SimTimeS = time.Since(r.start).Seconds()
 	if r.stopped != "" {
 		r.res.Probe("stopped:" + r.stopped)
+		r.res.Inconclusive = true
 	}
 }
 
@@ -251,6 +253,14 @@ func (r *run) setup() {
 	c.AccountQueue = uint64(t.Range(2, 4))
 	c.GlobalQueue = uint64(t.Range(4, 8))
 	if r.ilv {
+		r.sched = newScheduler(r)
+		r.sites = r.sched.probeSites()
+		r.res.Probe(fmt.Sprintf("instrumented_sites=%d", r.sites))
+		if r.sites == 0 {
+			r.res.Probe("ilv-fallback-sequential")
+		}
+	}
+	if r.ilv && r.sites > 0 {
 		// the choice among equal heartbeats in truncateQueue follows Go map order; with
 		// interleavings the harness cannot predict it, so the global queue is not made tight
 		c.GlobalQueue = 400
@@ -290,13 +300,8 @@ func (r *run) setup() {
 		c.NoLocals, len(c.Locals), c.Journal != "", v.gasLimit, fmtView(v))
 	r.ah.Add("setup", fmt.Sprint(c.NoLocals, len(c.Locals), c.Journal != ""))
 
-	if r.ilv {
-		r.sched = newScheduler(r)
+	if r.ilv && r.sites > 0 {
 		tx_pool.VerifYield = r.sched.yield
-		r.sites = r.sched.probeSites()
-		if r.sites == 0 {
-			r.res.Probe("ilv-fallback-sequential")
-		}
 	}
 	r.poolStart = time.Now()
 	r.pool = tx_pool.NewTxPool(r.cfg, chainCfg, r.chain)
@@ -315,7 +320,7 @@ func fmtView(v *chainView) string {
 
 func (r *run) drawBalance() *big.Int {
 	t := r.tape
-	switch t.Weighted(6, 3, 2, 1) {
+	switch t.Weighted(10, 3, 2, 1) {
 	case 0:
 		return big.NewInt(1000000000000)
 	case 1: // tight: pays for a plain transfer at a price up to ~40
@@ -424,6 +429,10 @@ func (r *run) genTx(a int, mv *model) *txinfo {
 		}
 	case "wrong-chain":
 		signer = wrongSigner
+		if t.Chance(1, 2) {
+			// costs nothing: whatever address a sloppy check derives, its balance suffices
+			price, value = big.NewInt(0), big.NewInt(0)
+		}
 	case "over-gas-limit":
 		gas = st.gasLimit + 1 + uint64(t.Draw(1000))
 	case "oversized":
